@@ -967,4 +967,20 @@ impl Axecutor {
             })
             .collect()
     }
+
+    /// Like `verif_areas`, without copying the contents: (name, start, length, access, data length, FNV-1a 64 of the data).
+    /// A heap of gigabytes can then be observed without doubling the memory the process needs.
+    pub fn verif_area_digests(&self) -> Vec<(Option<String>, u64, u64, u32, u64, u64)> {
+        self.state
+            .memory
+            .iter()
+            .map(|a| {
+                let mut h: u64 = 0xcbf29ce484222325;
+                for x in &a.data {
+                    h = (h ^ (*x as u64)).wrapping_mul(0x100000001b3);
+                }
+                (a.name.clone(), a.start, a.length, a.access, a.data.len() as u64, h)
+            })
+            .collect()
+    }
 }
